@@ -39,6 +39,10 @@ class Engine(ExecMixin, CallMixin, EvalMixin):
         self._ordcache = {}
         self._hq = {}
         self.at_fn = z3.Function('at', I, I, I)
+        self.hasbit = z3.Function('hasbit', I, I, B)
+        self.bitfns = {}
+        self.global_axioms = []
+        self._bitconst = set()
         self.globalrefs = {}
         self.path_ends = []       # (kind, trace)
         import externs
@@ -479,23 +483,43 @@ class Engine(ExecMixin, CallMixin, EvalMixin):
         if op == '>>' and yc is not None:
             return x / (1 << yc) if not signed else If(x >= 0, x / (1 << yc), -((-x + (1 << yc) - 1) / (1 << yc)))
         if op == '&':
-            if yc is not None and yc >= 0: return self.bitand_const(x, yc, bits)
-            if xc is not None and xc >= 0: return self.bitand_const(y, xc, bits)
+            if yc is not None and yc >= 0: return self.bit_fn('and', yc, bits)(x)
+            if xc is not None and xc >= 0: return self.bit_fn('and', xc, bits)(y)
         if op == '|':
             c, v = (yc, x) if yc is not None else (xc, y)
-            if c is not None and c >= 0:
-                # v | c = v + sum of missing bits
-                r = v
-                for i in range(bits):
-                    if c >> i & 1: r = r + (1 - self.bit(v, i)) * (1 << i)
-                return r
+            if c is not None and c >= 0: return self.bit_fn('or', c, bits)(v)
         if op == '&^' and yc is not None and yc >= 0:
-            r = x
-            for i in range(bits):
-                if yc >> i & 1: r = r - self.bit(x, i) * (1 << i)
-            return r
+            return self.bit_fn('andn', yc, bits)(x)
         self.assumptions.add('bit operation %s on symbolic operands abstracted (fresh value)' % op)
         return fint('bitop')
+
+    def bit_fn(self, kind, c, bits):
+        """x&c, x|c, x&^c for a constant mask c as uninterpreted functions over an abstract bit predicate hasbit(x,k);
+        the defining axioms are added to every query (global axioms)"""
+        c &= (1 << bits) - 1
+        name = '%s!%d!%d' % (kind, c, bits)
+        if name in self.bitfns: return self.bitfns[name]
+        f = z3.Function(name, I, I)
+        self.bitfns[name] = f
+        x = Int('bx!x'); hb = self.hasbit
+        ks = [k for k in range(bits) if c >> k & 1]
+        if kind == 'and':
+            val = sum([If(hb(x, k), IntVal(1 << k), IntVal(0)) for k in ks], IntVal(0))
+            ax = And(f(x) == val, f(x) >= 0, f(x) <= c)
+        elif kind == 'or':
+            val = x + sum([If(hb(x, k), IntVal(0), IntVal(1 << k)) for k in ks], IntVal(0))
+            ax = And(f(x) == val, *[hb(f(x), j) == (BoolVal(True) if j in ks else hb(x, j)) for j in range(bits)])
+        else:
+            val = x - sum([If(hb(x, k), IntVal(1 << k), IntVal(0)) for k in ks], IntVal(0))
+            ax = And(f(x) == val, *[hb(f(x), j) == (BoolVal(False) if j in ks else hb(x, j)) for j in range(bits)])
+        self.global_axioms.append(z3.ForAll([x], ax, patterns=[f(x)]))
+        # bits of the small constants that flags are initialised with
+        for n in range(0, 4):
+            for j in range(min(bits, 8)):
+                fact = hb(IntVal(n), j) == BoolVal(bool(n >> j & 1))
+                if str(fact) not in self._bitconst:
+                    self._bitconst.add(str(fact)); self.global_axioms.append(fact)
+        return f
 
     def equal(self, x, y, t):
         if isinstance(x, IfaceV) or isinstance(y, IfaceV):
